@@ -410,12 +410,12 @@ def inv_cr16(ctx):
         out.append(f"CastleRights::not (sets the high bits) is called from runtime code: {sorted(callers)}")
     # writers of the raw bits
     w = k2.writers_of_field(P, CR, "0")
-    okw = {CR + "::remove_for_sq", CR + "::remove", CR + "::add"}
+    okw = {CR + "::remove_for_sq", CR + "::remove", CR + "::add"} | {k for k in w if k.startswith(MG + "castle_rights::")}     # inside the module: each checked below / by C02.R1
     bad = sorted(set(w) - okw)
     if bad:
         out.append(f"CastleRights.0 is written in {bad}")
     # the per-square masks only ever clear bits (&=): remove_for_sq term checked by C02.R1
-    out += [f"{x.rule}: {x.what[:140]}" for x in sub_rules(ctx, "C02", {"C02.R1"}) if "remove_for_sq" in x.key or "offset" in x.key]
+    out += [f"{x.rule}: {x.what[:140]}" for x in sub_rules(ctx, "C02", {"C02.R1"}) if "per-square mask" in x.key or "offset" in x.key]
     # castle_rights_zobrist: only called with to_index()
     cz = "chess_lookup::castle_rights_zobrist"
     for k, bi in P.callers().get(cz, []):
